@@ -319,6 +319,28 @@ func (g *Gen) scenario(p *Profile) {
 				g.emit(fmt.Sprintf("dotx %d", len(w.Txs)-1))
 			}
 		case "xfer-bad":
+			if g.r.Chance(1, 3) {
+				// an output that an admitted transaction (pending, or confirmed on the current chain) has already spent is
+				// spent again by another transaction, sequentially
+				var cands []InRef
+				for _, ti := range e.pool {
+					cands = append(cands, w.Txs[ti].Ins...)
+				}
+				if st := e.stateTip(); st >= 0 {
+					for _, b := range w.chain(st) {
+						for _, ti := range w.Blocks[b].Txs {
+							cands = append(cands, w.Txs[ti].Ins...)
+						}
+					}
+				}
+				if len(cands) > 0 {
+					in := cands[g.r.Intn(len(cands))]
+					t2 := &TxInfo{Idx: len(w.Txs), From: in.Addr, Ins: []InRef{in}, Outs: []OutInfo{{Addr: g.users()[g.r.Intn(3)], Amt: new(big.Int).Set(in.Amt)}}}
+					g.emit(t2.line("xtx", ""))
+					g.emit(fmt.Sprintf("dotx %d", t2.Idx))
+				}
+				break
+			}
 			vs := []string{"amount", "unbalanced", "dupinput", "raw", "wrongowner", "frozen", "bigamount"}
 			if line, ok := g.genXfer(e.specNow(), g.ledgerHeight(), vs[g.r.Intn(len(vs))]); ok {
 				g.emit(line)
